@@ -297,6 +297,67 @@ pub fn sample_parts() -> Vec<Vec<u8>> {
     vec![raw_archive(0, &p0), raw_archive(1, &p1), raw_archive(2, &p2)]
 }
 
+/// a part set written through the library's own split writer (write_header / add_entry_part /
+/// split_to_next_archive / finalize) with EntryPart::split cutting the entries: `room` bytes of
+/// entry chunks per part; entries with metadata, a data stream cut across parts, a directory
+pub fn sample_parts_api(room: usize) -> Vec<Vec<u8>> {
+    let es: Vec<NormalEntry> = vec![
+        file_entry("p/one", b"0123456789abcdefghijklmnopqrst", WriteOptions::store(), true),
+        file_entry("p/two", &(0..90u8).collect::<Vec<u8>>(), WriteOptions::store(), false),
+        EntryBuilder::new_dir("p/d".into()).build().unwrap(),
+        file_entry("p/three", b"tail", WriteOptions::store(), false),
+    ];
+    let mut bufs: Vec<Vec<u8>> = (0..16).map(|_| Vec::new()).collect();
+    let mut used = 1;
+    {
+        let mut it = bufs.iter_mut();
+        let mut w = Archive::write_header(it.next().unwrap()).unwrap();
+        let mut written = 0usize;
+        for e in es {
+            let mut p = EntryPart::from(e);
+            let mut guard_rounds = 0;
+            loop {
+                guard_rounds += 1;
+                assert!(guard_rounds < 64, "sample_parts_api: room too small");
+                let (a, rest) = p.split(room - written);
+                if a.bytes_len() > 0 {
+                    written += w.add_entry_part(a).unwrap();
+                }
+                match rest {
+                    None => break,
+                    Some(r) => {
+                        w = w.split_to_next_archive(it.next().expect("enough part buffers")).unwrap();
+                        used += 1;
+                        written = 0;
+                        p = r;
+                    }
+                }
+            }
+        }
+        w.finalize().unwrap();
+    }
+    bufs.truncate(used);
+    bufs
+}
+
+/// for a well-formed part set: for every entry (closed by FEND / SEND, possibly straddling parts) the position
+/// (part index, end offset in that part) of the end of its closing chunk; None if a part does not scan
+pub fn part_entry_ends(parts: &[Vec<u8>]) -> Option<Vec<(usize, usize)>> {
+    let mut ends = Vec::new();
+    for (k, p) in parts.iter().enumerate() {
+        for (off, ty, d) in scan(p)? {
+            if &ty == b"FEND" || &ty == b"SEND" {
+                ends.push((k, off + 12 + d.len()));
+            }
+        }
+    }
+    Some(ends)
+}
+/// offset `n` of a scannable part lies in the 4-byte length field of one of its chunks
+pub fn in_length_field(part: &[u8], n: usize) -> bool {
+    scan(part).map(|cs| cs.iter().any(|(off, _, _)| *off <= n && n < off + 4)).unwrap_or(false)
+}
+
 // ---- chunk grammar (C07 a): CRC-valid chunks with adversarial payloads -------------------------
 pub fn grammar_archive(r: &mut Rng) -> Vec<u8> {
     let mut cs: Vec<(Vec<u8>, Vec<u8>)> = Vec::new();
